@@ -343,7 +343,7 @@ def main(chk: C.Check, build: C.Build) -> None:
         kind = cfg[0]
         al = alphabet(kind, cfg[3])
         pre = prefix(kind)
-        if not thorough and kind in ("fs", "nsfs", "choicefs") and cfg[1] == 3:
+        if not thorough and (kind not in ("dict", "nsdict") or cfg[1] == 3):
             lens = [1]
         else:
             lens = range(1, exhaustive_len + 1)
@@ -351,10 +351,12 @@ def main(chk: C.Check, build: C.Build) -> None:
             for body in itertools.product(al, repeat=n):
                 if not any(o[0] == "L" for o in body):
                     continue
+                if not thorough and n == 2 and r.random() > 0.4:
+                    continue
                 if thorough and n == 3 and kind not in ("dict", "nsdict") and r.random() > 0.08:
                     continue
                 hist.append(cfg + (number_contents(pre + list(body)),))
-        nrand = 30 if not thorough else 400
+        nrand = 40 if not thorough else 400
         for _ in range(nrand):
             n = r.randint(3, 9 if not thorough else 30)
             body = [r.choice(al) if r.random() > 0.5 else r.choice([o for o in al if o[0] == "L"]) for _ in range(n)]
@@ -396,40 +398,24 @@ def main(chk: C.Check, build: C.Build) -> None:
         chk.finding("cache-key-collision", "namespace 'a/b' + name 'c' and namespace 'a' + name 'b/c' share the cache key 'a/b/c': " + fail,
                     {"history": COLLISION, "steps": res["steps"]})
 
-    rc = C.run_cases("c14", IMPORTS, "", [c_case(p) for p in parts])
-    for e in rc["errors"]:
-        chk.notes.append("coq case error: " + e[:300])
-    corr_broken = bool(rc["bad"] or rc["errors"])
-    if rc["bad"]:
-        idx = rc["bad"][:3]
-        outs = C.eval_terms("c14", IMPORTS, "", [c_model_run(parts[i]) for i in idx])
-        for i, o in zip(idx, outs):
-            kind, cap, ar, nsk, ops = hist[i]
-            chk.notes.append(f"model/implementation disagree on history #{i}")
-            if not chk.violations:
-                chk.finding("correspondence:CacheLoader.run", "model and implementation disagree (no direct property failure found on this history)",
-                            {"kind": kind, "capacity": cap, "auto_reload": ar, "namespace_key": nsk, "ops": ops,
-                             "implementation": results[i]["steps"], "model": o,
-                             "broken": "correspondence harness/c14.py vs Kernels/CacheLoader.v run"},
-                            no_input=True)
-    if rc["errors"] and not chk.violations:
-        chk.finding("correspondence:build", "case files did not evaluate", {"errors": rc["errors"][:3],
-                    "broken": "correspondence harness/c14.py (coqc on generated cases)"}, no_input=True)
-    if not proofs_ok and not chk.violations:
-        chk.finding("proof:C14", "a proof obligation of C14 no longer checks",
-                    {"broken": chk.coverage.get("broken_obligations")}, no_input=True)
+    items = [{"case": c_case(p), "model": c_model_run(p),
+              "replay": {"kind": h[0], "capacity": h[1], "auto_reload": h[2], "namespace_key": h[3],
+                         "ops": h[4], "implementation": res["steps"]}}
+             for p, h, res in zip(parts, hist, results)]
+    C.correspond(chk, "c14", IMPORTS, "", items, what="CacheLoader.run")
+    C.proofs_verdict(chk, proofs_ok)
 
     chk.coverage.update({
         "evaluations": len(hist),
         "distinct_nontrivial": len(nontrivial),
         "rule": ("histories over {Load(name in a,b; namespace in u,v; globals in none,G1; sync|async), Modify, Delete, FailNext} "
-                 f"after a prefix that creates every source: exhaustive up to body length {exhaustive_len} for every "
+                 f"after a prefix that creates every source: exhaustive up to body length {exhaustive_len} "
+                 "(quick: a seeded 40% of length 2 and only for the dict-backed loaders with capacity 1-2, length 1 elsewhere) for every "
                  "(loader kind x capacity 1..3 x auto_reload x namespace_key) plus seeded random longer ones; "
                  "non-trivial = some Load found its key already cached and was answered from / revalidated against the cache"),
         "samples": [{"kind": h[0], "capacity": h[1], "auto_reload": h[2], "namespace_key": h[3], "ops": h[4],
                      "observed": [s["c"] for s in results[i]["steps"]]}
                     for i, h in list(enumerate(hist))[:: max(1, len(hist) // 4)][:4]],
-        "model_cases": rc["n"], "model_disagreements": len(rc["bad"]),
         "distribution": dist,
         "exhaustive": False,
         "tier_proved": "kernel (LRU + caching loader state machine)",
